@@ -46,9 +46,13 @@ EPISODIC = ["reinforce", "ac"]
 VECTOR = ["a2c", "ppo"]
 TABULAR = ["q_learning", "sarsa", "double_q_learning", "monte_carlo", "dynaq"]
 MULTITASK = ["smt", "active_mt", "uts"]
-ROUTINES = OFF_POLICY + EPISODIC + VECTOR + TABULAR + ["cmaes"] + MULTITASK
+# configuration variants of a routine (same entry point): MR.Q learning from step 0 (sampling while no admissible
+# sub-trajectory start exists yet) and the active scheduler with undiscounted UCB and constant rewards (exact ties)
+VARIANTS = {"mrq@ls0": "mrq", "active_mt@ties": "active_mt"}
+POLLUTABLE = {"ddpg", "td3", "td3_lap", "sac", "td7", "mrq", "pets"}  # continuous Box actions: an alt-bounds run exists
+ROUTINES = OFF_POLICY + EPISODIC + VECTOR + TABULAR + ["cmaes"] + MULTITASK + list(VARIANTS)
 
-ENTRY = {n: "train_" + n for n in ROUTINES}
+ENTRY = {n: "train_" + VARIANTS.get(n, n) for n in ROUTINES}
 ENTRY.update(ac="train_ac", ddqn_per="train_ddqn_per")
 
 FAMILIES = {
@@ -56,13 +60,13 @@ FAMILIES = {
     "ddpg-td3": ["ddpg", "td3", "td3_lap"],
     "sac": ["sac"],
     "td7": ["td7"],
-    "mrq": ["mrq"],
+    "mrq": ["mrq", "mrq@ls0"],
     "pets": ["pets"],
     "policy-gradient": ["reinforce", "ac"],
     "a2c-ppo": ["a2c", "ppo"],
     "tabular": TABULAR,
     "cmaes": ["cmaes"],
-    "multi-task": MULTITASK,
+    "multi-task": MULTITASK + ["active_mt@ties"],
 }
 
 # scripts: every one contains a termination and a truncation inside the executed horizon; all
@@ -341,18 +345,21 @@ def _guard(fn):
 # -- the 11 step-granular off-policy routines -----------------------------------------------------
 
 
-def run_off_policy(name, sid, seed, net_seed):
+def run_off_policy(name, sid, seed, net_seed, alt_bounds=False):
+    variant, name = name, VARIANTS.get(name, name)
     script = STEP_SCRIPTS[sid]
     T = 8
     if name == "pets":
-        env = make_env(script, horizon=T + 1, low=(-1.0,), high=(2.0,))
+        env = make_env(script, horizon=T + 1, low=(-3.0,) if alt_bounds else (-1.0,), high=(5.0,) if alt_bounds else (2.0,))
+    elif alt_bounds and name not in drivers.DISCRETE:
+        env = make_env(script, horizon=T + 1, low=(-3.0, -2.0), high=(5.0, 7.0))
     else:
         env = make_env(script, discrete=name in drivers.DISCRETE, horizon=T + 1)
     lg = make_logger()
     cfg = dict(env=env, seed=seed, net_seed=net_seed, total_timesteps=T, learning_starts=2, batch_size=2, delay=2,
                buffer_size=6, extra={"logger": lg}, width=3)
     if name == "mrq":
-        cfg.update(learning_starts=4, buffer_size=12)
+        cfg.update(learning_starts=0 if variant == "mrq@ls0" else 4, buffer_size=12)
     if name == "pets":
         cfg.update(learning_starts=3)
     if name == "dqn":
@@ -500,9 +507,15 @@ def run_cmaes(name, sid, seed, net_seed):
 def run_multitask(name, sid, seed, net_seed):
     from rl_blox.blox.replay_buffer import MultiTaskReplayBuffer, ReplayBuffer
 
+    variant, name = name, VARIANTS.get(name, name)
+    ties = variant == "active_mt@ties"
+
     n_tasks = {"active_mt": 2, "smt": 4}.get(name, 3)  # SMT: 4 tasks so that the main pool holds tied candidates
     budget = 24 if name == "active_mt" else 14  # active-MT: long enough to leave the bandit's initial round-robin phase
-    envs = gym.vector.SyncVectorEnv([(lambda i=i: make_env(_periodic(sid + i, budget + 8))) for i in range(n_tasks)])
+    envs = gym.vector.SyncVectorEnv([(lambda i=i: make_env(_periodic(sid if ties else sid + i, budget + 8))) for i in range(n_tasks)])
+    if ties:
+        for e in envs.envs:
+            e.reward_fn = lambda env, lvl: 1.0  # every episode of every task has the same return: exact UCB ties
     env0 = envs.envs[0]
     lg = make_logger()
     H = [3]
@@ -542,7 +555,7 @@ def run_multitask(name, sid, seed, net_seed):
             from rl_blox.blox.multitask import DUCBGeneralized
 
             sel_name = ["Monotonic Progress", "1-step Progress"][sid % 2]
-            sel = DUCBGeneralized(tasks=np.arange(n_tasks), upper_bound=20.0, ducb_gamma=0.9, zeta=0.5, **TASK_SELECTORS[sel_name][1])
+            sel = DUCBGeneralized(tasks=np.arange(n_tasks), upper_bound=20.0, ducb_gamma=1.0 if ties else 0.9, zeta=0.5, **TASK_SELECTORS[sel_name][1])
             comps["task_selector"] = sel
             res, err = _guard(lambda: train_active_mt(envs, train_st, rb, r_max=20.0, ducb_gamma=0.9, xi=0.5, task_selector=sel,
                                                       total_timesteps=budget, scheduling_interval=1, learning_starts=3, seed=seed,
@@ -552,9 +565,9 @@ def run_multitask(name, sid, seed, net_seed):
     return _finish(name, comps, list(envs.envs), lg, before, err)
 
 
-def run_digest(name, sid, seed, net_seed):
-    if name in OFF_POLICY:
-        return run_off_policy(name, sid, seed, net_seed)
+def run_digest(name, sid, seed, net_seed, alt_bounds=False):
+    if VARIANTS.get(name, name) in OFF_POLICY:
+        return run_off_policy(name, sid, seed, net_seed, alt_bounds)
     if name in EPISODIC:
         return run_episodic(name, sid, seed, net_seed)
     if name in VECTOR:
@@ -563,7 +576,7 @@ def run_digest(name, sid, seed, net_seed):
         return run_tabular(name, sid, seed, net_seed)
     if name == "cmaes":
         return run_cmaes(name, sid, seed, net_seed)
-    if name in MULTITASK:
+    if VARIANTS.get(name, name) in MULTITASK:
         return run_multitask(name, sid, seed, net_seed)
     raise KeyError(name)
 
@@ -604,7 +617,14 @@ def run_jobs(jobs, perturb):
     """jobs: [[name, sid, seed, net_seed], ...] -> {job key: result}. Each job is run under the same perturbation
     (global RNGs re-seeded per job so that a job's result does not depend on its position in the list)."""
     out = {}
+    perturb = dict(perturb)
+    pollute = perturb.pop("pollute", False)
     for name, sid, seed, net_seed in jobs:
+        if pollute and VARIANTS.get(name, name) in POLLUTABLE:
+            # process history: in this (fresh) interpreter a different training - same routine, other action
+            # bounds - runs BEFORE the job, so anything kept across calls is filled by the other run first
+            with perturbed(**perturb):
+                run_digest(name, sid, seed + 77, net_seed, alt_bounds=True)
         with perturbed(**perturb):
             out[job_key(name, sid, seed, net_seed)] = run_digest(name, sid, seed, net_seed)
     return out
